@@ -144,3 +144,169 @@ def line_twprge_natural(t):
 @guard
 def impl_twprge_natural(t):
     return render(twprge_short_to_natural(t))
+
+
+# ---- PLSS level
+from pytrs.parser.plssdesc.plss_preprocess import plss_preprocess, find_twprge, find_sec
+from pytrs.parser.plssdesc.plss_parse import deduce_layout, cleanup_desc
+from pytrs.parser.config.master_config import MasterConfig
+from pytrs.parser.config.config import Config
+
+
+class mc_ctx:
+    """temporarily set MasterConfig defaults (always restored)"""
+
+    def __init__(self, ns, ew):
+        self.ns, self.ew = ns, ew
+
+    def __enter__(self):
+        self.old = (MasterConfig.default_ns, MasterConfig.default_ew)
+        MasterConfig.default_ns, MasterConfig.default_ew = self.ns, self.ew
+
+    def __exit__(self, *a):
+        MasterConfig.default_ns, MasterConfig.default_ew = self.old
+
+
+def line_plss_pp(mc, t, dns, dew, ocr):
+    return req('plss.pp', enc_text(mc[0]), enc_text(mc[1]), enc_text(t), enc_text(dns), enc_text(dew), enc_bool(ocr))
+
+
+@guard
+def impl_plss_pp(mc, t, dns, dew, ocr):
+    with mc_ctx(*mc):
+        txt, fixed = plss_preprocess(t, dns, dew, ocr)
+    return render((txt, fixed))
+
+
+def line_layout(t):
+    return req('plss.layout', enc_text(t))
+
+
+@guard
+def impl_layout(t):
+    return render(deduce_layout(t))
+
+
+def line_cleanup(t):
+    return req('plss.cleanup', enc_text(t))
+
+
+@guard
+def impl_cleanup(t):
+    return render(cleanup_desc(t))
+
+
+def line_find_twprge(mc, t, dns, dew, pre, ocr):
+    return req('plss.find_twprge', enc_text(mc[0]), enc_text(mc[1]), enc_text(t), enc_text(dns), enc_text(dew), enc_bool(pre), enc_bool(ocr))
+
+
+@guard
+def impl_find_twprge(mc, t, dns, dew, pre, ocr):
+    with mc_ctx(*mc):
+        return render(find_twprge(t, dns, dew, pre, ocr))
+
+
+def line_find_sec(t):
+    return req('plss.find_sec', enc_text(t))
+
+
+@guard
+def impl_find_sec(t):
+    return render(find_sec(t))
+
+
+def line_config_text(t):
+    return req('config.text', enc_text(t))
+
+
+CFG_ATTS = Config._CONFIG_ATTRIBUTES
+
+
+@guard
+def impl_config_text(t):
+    c = Config(t)
+    d = {a: getattr(c, a) for a in CFG_ATTS if getattr(c, a) is not None}
+    return render((d, c.decompile_to_text()))
+
+
+# ---- objects
+def enc_kv(v):
+    if v is None:
+        return '~'
+    if v is True:
+        return 'T'
+    if v is False:
+        return 'F'
+    if isinstance(v, int):
+        return 'i%d' % v
+    return 's' + enc_text(v)
+
+
+def enc_kwargs(kw):
+    if kw is None:
+        return '-'
+    return ','.join(f"{k}={enc_kv(v)}" for k, v in kw.items())
+
+
+def enc_cfg(c):
+    if c is None:
+        return '~'
+    if not isinstance(c, str):
+        return '?'
+    return enc_text(c)
+
+
+FLAG_ATTS = ['w_flags', 'w_flag_lines', 'e_flags', 'e_flag_lines']
+
+
+def tract_snap(t):
+    try:
+        il = t.ilots
+    except Exception as e:  # noqa
+        il = render_exc(e)
+    d = {'trs': t.trs, 'twp': t.twp, 'rge': t.rge, 'sec': t.sec, 'twp_num': t.twp_num, 'rge_num': t.rge_num,
+         'sec_num': t.sec_num, 'twp_ns': t.twp_ns, 'rge_ew': t.rge_ew, 'twprge': t.twprge, 'desc': t.desc,
+         'orig_desc': t.orig_desc, 'orig_index': t.orig_index, 'source': t.source, 'pp_desc': t.pp_desc,
+         'parse_complete': t.parse_complete, 'lots': t.lots, 'qqs': t.qqs, 'lot_acres': t.lot_acres,
+         'aliquots_whole': t.aliquots_whole, 'ilots': il, 'config': t.config.decompile_to_text()}
+    for a in FLAG_ATTS:
+        d[a] = getattr(t, a)
+    return d
+
+
+def desc_snap(d):
+    s = {'current_layout': d.current_layout, 'pp_desc': d.pp_desc, 'desc_is_flawed': d.desc_is_flawed,
+         'tracts': [tract_snap(t) for t in d.tracts]}
+    for a in FLAG_ATTS:
+        s[a] = getattr(d, a)
+    return s
+
+
+def line_desc_init(mc, t, layout, cfg, pq, src, wait, kw):
+    return req('desc.init', enc_text(mc[0]), enc_text(mc[1]), enc_text(t), enc_text(layout), enc_cfg(cfg), enc_kv(pq),
+               enc_text(src), enc_kv(wait), enc_kwargs(kw))
+
+
+@guard
+def impl_desc_init(mc, t, layout, cfg, pq, src, wait, kw):
+    with mc_ctx(*mc):
+        d = pytrs.PLSSDesc(t, layout=layout, config=cfg, parse_qq=pq, source=src, wait_to_parse=wait)
+        if kw is None:
+            return render(desc_snap(d))
+        r = d.parse(commit=False, **kw)
+        lay = None
+        # the layout used by a non-committed parse is not exposed; re-derive it the way parse() does
+        return render((desc_snap(d), [tract_snap(x) for x in r]))
+
+
+def line_tract_init(t, trs, cfg, pq, kw):
+    return req('tract.init', enc_text(t), enc_text(trs), enc_cfg(cfg), enc_kv(pq), enc_kwargs(kw))
+
+
+@guard
+def impl_tract_init(t, trs, cfg, pq, kw):
+    tr = pytrs.Tract(t, trs=trs, config=cfg, parse_qq=pq)
+    if kw is None:
+        return render(tract_snap(tr))
+    ret = tr.parse(commit=True, **kw)
+    return render((tract_snap(tr), ret))
